@@ -84,6 +84,17 @@ def check(tier, seed):
     for host in ('bitbucket', 'github'):
         b = MockBertE(host)
         apps[host] = (b, server.setup_server(b))
+    # the GitHub handlers of issue_comment and check_suite fetch documents from the host: canned answers
+    GH_DOCS = {}
+
+    def gh_get(url, params=None, headers=None, **kw):
+        from requests import HTTPError
+        if '/actions/runs' in url:
+            return copy.deepcopy(GH_DOCS['runs'])
+        if url.endswith('/pulls/7'):
+            return copy.deepcopy(GH_DOCS['pull'])
+        raise HTTPError('404 ' + url)
+    apps['github'][0].client.get = gh_get
     bert, app = apps['bitbucket']
     bad = []
     # ---- the set of routes
@@ -195,6 +206,25 @@ def check(tier, seed):
                     elif name == 'status':
                         data = {'sha': 'c' * 40, 'state': ev.split(':')[1], 'context': 'pre-merge',
                                 'description': 'd', 'target_url': 'http://ci/1', 'repository': repo}
+                    elif name == 'issue_comment':
+                        sub = ev.split(':')[1]
+                        issue = {'number': 7, 'title': 't'}
+                        if sub != 'issue':
+                            issue['pull_request'] = {'url': 'https://api.github.com/repos/test_owner/test_repo/pulls/'
+                                                            + ('7' if sub == 'pr' else '404')}
+                        data = {'action': 'created', 'issue': issue, 'repository': repo}
+                        GH_DOCS['pull'] = pr
+                    elif name == 'check_suite':
+                        done = ev.split(':')[1] == 'completed'
+                        data = {'action': 'completed' if done else 'requested', 'repository': repo,
+                                'check_suite': {'id': 5, 'head_sha': 'd' * 40, 'head_branch': 'q/4.3',
+                                                'status': 'completed' if done else 'in_progress',
+                                                'conclusion': 'success' if done else None}}
+                        GH_DOCS['runs'] = {'total_count': 1, 'workflow_runs': [
+                            {'id': 11, 'head_sha': 'd' * 40, 'head_branch': 'q/4.3', 'workflow_id': 3,
+                             'check_suite_id': 5, 'event': 'push', 'html_url': 'http://ci/11', 'repository': repo,
+                             'status': 'completed' if done else 'in_progress',
+                             'conclusion': 'success' if done else None}]}
                     else:
                         data = {'repository': repo, 'zen': 'x'}
                     resp = c.post('/github', data=json.dumps(data),
